@@ -771,6 +771,29 @@ func c01UnreadableChunkOuts(c *Ctx, specs []*TASpec, results []*C01RunResult, pa
 	fres := c01RunSpecs(fspecs, parallel)
 	for i, res := range fres {
 		r.count("badouts|"+fspecs[i].Src+"|"+fspecs[i].Faults[0].JobKey, true)
+		// the model of doJoin's read (Martian.Resolver.doJoinRead): one unreadable chunk among n
+		// => the join is not launched
+		if m := regexp.MustCompile(`\.chnk(\d+)\.`).FindStringSubmatch(fspecs[i].Faults[0].JobKey); m != nil {
+			vi, _ := strconv.Atoi(m[1])
+			var sb strings.Builder
+			sb.WriteString("(l")
+			for k := 0; k <= vi+1; k++ {
+				if k == vi {
+					sb.WriteString(" u")
+				} else {
+					sb.WriteString(" n")
+				}
+			}
+			sb.WriteString(")")
+			reply := c.Drv.Ask("C01.joinread", sb.String())
+			r.hist("joinread:" + strings.SplitN(reply, "\t", 2)[0])
+			if !strings.HasPrefix(reply, "launched=0") {
+				r.violate(Violation{Kind: "correspondence", Key: "C01:joinread-model",
+					What:   "the model of doJoin's read launches a join although a chunk's outs are unreadable: " + c01Trunc(reply, 120),
+					Input:  map[string]interface{}{"reads": sb.String()},
+					Broken: "join_complete_or_failed"})
+			}
+		}
 		if res.Final != "complete" {
 			r.hist("unreadable-chunk-outs:" + strings.SplitN(res.Final, ":", 2)[0])
 			continue
